@@ -13,3 +13,4 @@ import LyModel.Props.C01Lyb
 #print axioms LyModel.Props.C01Lyb.lyb_skip_lands_at_end_fails
 #print axioms LyModel.Props.C01Lyb.lyb_skip_lands_at_end_nested_fails
 #print axioms LyModel.Props.C01Lyb.lyb_skip_lands_at_end_partial
+#print axioms LyModel.Props.C01Lyb.lyb_skip_top_frame
